@@ -7,6 +7,7 @@ import FFS.Driver.AbiCodec
 import FFS.Driver.AbiEntry
 import FFS.Driver.Eip712
 import FFS.Driver.Ffi
+import FFS.Driver.Keystore
 open Lean FFS FFS.Driver
 
 def dispatch (op : String) (j : Json) : Json :=
@@ -41,6 +42,9 @@ def dispatch (op : String) (j : Json) : Json :=
   | "eip712.doc" => opEip712Doc j
   | "ffi.toABI" => opFfiToABI j
   | "ffi.roundtrip" => opFfiRoundtrip j
+  | "ks.read" => opKsRead j
+  | "ks.create" => opKsCreate j
+  | "prim" => opPrim j
   | _ => Json.mkObj [("bad", "op")]
 
 partial def loop (hin : IO.FS.Stream) (hout : IO.FS.Stream) : IO Unit := do
